@@ -1865,20 +1865,45 @@ pub fn execute(sc: &E2Scenario) -> RunReport {
             rep.probe("layout:cwd_differs_from_config_dir");
         }
     }
-    // signature: project shape + faults that fired
+    // signature = behaviour class of the run, not its identity: shape of the project and of its
+    // layout, which rule violations / corruptions it carries, which fault kinds fired and which
+    // probes (branches of the drivers and oracles) were reached.  Names, texts and seeds are
+    // left out on purpose, so that `distinct` counts different situations, not different spellings.
+    let p = &sc.project;
+    let n_imports: usize = p.ops.iter().map(|f| f.imports.len()).sum();
     let mut sig = rng::fnv(&sc.variant);
-    sig = rng::mix(sig, sc.project.ops.len() as u64);
-    sig = rng::mix(sig, sc.project.schema.types.len() as u64);
-    sig = rng::mix(sig, rng::fnv(&sc.project.config_text()));
-    for i in &sc.injected {
-        sig = rng::mix(sig, rng::fnv(&i.kind));
+    for x in [
+        p.ops.len() as u64,
+        p.schema_paths.len() as u64,
+        n_imports.min(4) as u64,
+        p.ops.iter().any(|f| f.imports.iter().any(|i| i.names.is_none())) as u64,
+        p.introspection() as u64,
+        p.schema.ts_type_directives as u64,
+        rng::fnv(&p.mode()),
+        p.config.json as u64,
+        p.config.explicit as u64,
+        (p.cwd != p.root) as u64,
+        p.flags.no_config as u64,
+        (p.flags.schema as u64) | (p.flags.operation as u64) << 1 | (p.flags.schema_output as u64) << 2 | (p.flags.decoy as u64) << 3,
+        p.config.documents_globs.iter().any(|g| g.contains("..")) as u64,
+        !p.config.plugins.is_empty() as u64,
+        p.gen_str("schemaModuleSpecifier").is_some() as u64,
+        p.gen_str("resolversOutput").is_some() as u64,
+        p.gen_str("serverGraphqlOutput").is_some() as u64,
+    ] {
+        sig = rng::mix(sig, x);
     }
-    for (k, v) in &rep.faults {
-        sig = rng::mix(sig, rng::mix(rng::fnv(k), *v));
+    let mut kinds: BTreeSet<String> = sc.injected.iter().map(|i| format!("i:{}", i.kind)).collect();
+    kinds.extend(sc.corruptions.iter().map(|c| format!("c:{}", c.kind)));
+    kinds.extend(rep.faults.keys().map(|k| format!("f:{k}")));
+    kinds.extend(rep.probes.keys().map(|k| format!("p:{k}")));
+    for k in &kinds {
+        sig = rng::mix(sig, rng::fnv(k));
     }
     rep.signature = sig;
     rep.digest = RUN_DIGEST.with(|x| x.get());
-    rep.nontrivial = !rep.faults.is_empty() || !sc.injected.is_empty() || sc.hash_seeds.len() >= 2;
+    // non-trivial: something beyond "a valid project on a fresh tree" happened
+    rep.nontrivial = !rep.faults.is_empty() || !sc.injected.is_empty() || !sc.corruptions.is_empty();
     rep.hash_seeds = sc.hash_seeds.clone();
     rep.sample = Some(json!({
         "variant": sc.variant,
